@@ -16,7 +16,7 @@ RULE = ('Histories of store / drain / cache-query / cache-query-bulk over <=5 me
         're-store after a drain, and (concurrent) >=1 preemption inside a cache operation; distinct by hash of '
         '(strategy, programs, switches).')
 ASSUMPTIONS = [
-  'interleaving granularity is one source line of lib/carbon/cache.py, events.py, protocols.py (finer opcode-level races are out of reach)',
+  'interleaving granularity is one source line of lib/carbon/cache.py, events.py, protocols.py for the generated schedules; the prefilled single-preemption enumeration additionally runs at bytecode granularity inside cache.py (sys.settrace opcode events)',
   'cache queries run on the receiving (reactor) thread, as in the daemon; only the writer thread runs concurrently',
   'unbounded cache here; the bounded cache is C10',
   'random strategy: random.choice replaced by a generated index sequence',
@@ -225,10 +225,10 @@ PREFILLED = [
 ]
 
 
-def enumerate_prefilled(ctx, fn, extra=None, strategies=None):
+def enumerate_prefilled(ctx, fn, extra=None, strategies=None, workloads=None):
   total = 0
   for strategy in (strategies or cachesim.STRATEGIES):
-    for pf in PREFILLED:
+    for pf in (workloads or PREFILLED):
       base = dict(pf, strategy=strategy, switches=[], choices=[], first=1)
       base.update(extra or {})
       n = unpreempted_steps(base) + 25
@@ -258,10 +258,13 @@ def run(ctx):
   if (ctx.shard or 0) == 0:
     enumerate_single(ctx, execute)
     enumerate_prefilled(ctx, execute)
+    # the same at bytecode granularity inside cache.py (a read-modify-write statement can be torn apart)
+    enumerate_prefilled(ctx, execute, extra={'opcodes': True}, strategies=('sorted', 'bucketmax') if ctx.quick else None,
+                        workloads=PREFILLED[:1] if ctx.quick else None)
   if ctx.quick:
     for i, s in enumerate(cachesim.STRATEGIES):
-      run_given(ctx, concurrent_cases(s), execute, 450, salt=10 + i)
-      run_given(ctx, sequential_cases(s), execute, 150, salt=20 + i)
+      run_given(ctx, concurrent_cases(s), execute, 300, salt=10 + i)
+      run_given(ctx, sequential_cases(s), execute, 120, salt=20 + i)
   else:
     for i, s in enumerate(cachesim.STRATEGIES):
       run_given(ctx, concurrent_cases(s), execute, 700, salt=10 + i)
